@@ -943,7 +943,10 @@ class Airplane:
         """
         # Store controls
         for key,_ in self.current_control_state.items():
-            self.current_control_state[key] = import_value(key, control_state, self._unit_sys, 0.0) # (a value given with a unit is recorded in the default unit)
+            value = import_value(key, control_state, self._unit_sys, 0.0) # (a value given with a unit is recorded in the default unit)
+            if isinstance(value, np.ndarray): # A distribution is recorded as the aircraft's own array of floats
+                value = np.array(value, dtype=float)
+            self.current_control_state[key] = value
 
         # Apply to wing segments
         for _,wing_segment in self.wing_segments.items():
